@@ -33,8 +33,28 @@ FACTORS = {
     "2.5": ("2.5", "literal", "lit"),
     "1": ("1", "literal", "lit"),
     "3": ("3", "literal", "lit"),
+    # contrast-coded factors: full coding = level indicators, reduced coding = the named contrast columns
+    "C(A, contr.sum)": ("C(A, contr.sum)", "python", "cat"),
+    "C(B, contr.helmert)": ("C(B, contr.helmert)", "python", "cat"),
 }
-CAT = {"A": "A", "B": "B"}
+CAT = {"A": "A", "B": "B", "C(A, contr.sum)": "A", "C(B, contr.helmert)": "B"}
+CONTRAST_FACTORS = ["C(A, contr.sum)", "C(B, contr.helmert)"]
+_REDUCED = {}
+
+
+def reduced_pieces(fname, frame):
+    """{label piece -> column} of the reduced coding of each contrast-coded factor, taken from a build in which the factor
+    stands alone next to an intercept (differential reference for the contrast columns; the codings themselves are C11's subject)"""
+    if fname not in _REDUCED:
+        out = {}
+        from formulaic import model_matrix
+        for f in CONTRAST_FACTORS:
+            mm = model_matrix("1 + " + f, frame)
+            for name in mm.columns:
+                if name != "Intercept":
+                    out[name] = mm[name].to_numpy(dtype=float)
+        _REDUCED[fname] = out
+    return _REDUCED[fname]
 
 
 def frames():
@@ -69,6 +89,8 @@ def universe(tier):
     u = [(f,) for f in base]
     u += [p for p in itertools.permutations(base, 2)]
     u += [("a", "A", "B"), ("A", "a", "B"), ("A", "B", "a"), ("B", "A", "a"), ("A", "B", "{a+b}"), ("a", "b", "A"), ("A", "a", "b"), ("b", "A", "a")]
+    u += [("C(A, contr.sum)",), ("a", "C(A, contr.sum)"), ("B", "C(A, contr.sum)"), ("C(A, contr.sum)", "b"), ("C(B, contr.helmert)", "A"),
+          ("C(A, contr.sum)", "C(B, contr.helmert)"), ("2.5", "C(A, contr.sum)", "a")]
     u += [("2.5", "a"), ("2.5", "A"), ("a", "2.5"), ("2.5", "a", "A"), ("3", "A", "B"), ("1", "b"), ("A", "2.5", "a"), ("2.5", "3", "a")]
     return u
 
@@ -106,6 +128,7 @@ def drv(c, ctx, col):
     out = c.pick(ctx["outputs"])
     fname = c.pick(ctx["frame_names"])
     frame = ctx["frames"][fname]
+    mat = c.pick(ctx.get("materializers", ["pandas"]))
 
     if mode == "string":
         s = " + ".join(([] if icpt else ["0"]) + [term_str(t) for t in terms])
@@ -115,13 +138,13 @@ def drv(c, ctx, col):
         tl = ([Term([Factor("1", eval_method="literal")])] if icpt else []) + [term_obj(t) for t in terms]
         formula = Formula(tl, _ordering="none")
         desc = "Formula(%r, _ordering='none')" % ([("1" if icpt else None)] + [term_str(t) for t in terms])
-    key = "%s efr=%s output=%s frame=%s" % (desc, efr, out, fname)
+    key = "%s efr=%s output=%s frame=%s%s" % (desc, efr, out, fname, "" if mat == "pandas" else " materializer=" + mat)
     if any(FACTORS[f][2] in ("cat", "lit") for t in terms for f in t):
         col.interesting()
     col.sample({"formula": desc, "ensure_full_rank": efr, "output": out, "frame": fname})
 
     try:
-        mm = formula.get_model_matrix(frame, ensure_full_rank=efr, output=out)
+        mm = formula.get_model_matrix(frame, ensure_full_rank=efr, output=out, materializer=mat)
     except Exception as e:  # noqa
         col.violation(key, {"error": "%s: %s" % (type(e).__name__, e)}, sig="materialization-raised:" + type(e).__name__)
         return
@@ -159,7 +182,7 @@ def drv(c, ctx, col):
             return
         for label in cols:
             try:
-                want, parts = D.column_from_label(label, frame, CAT, scale=scale)
+                want, parts = D.column_from_label(label, frame, CAT, scale=scale, extra=reduced_pieces(fname, frame))
             except Exception as e:  # noqa
                 col.violation(key, {"term": str(t), "label": label, "error": repr(e)}, sig="unreadable-label")
                 return
@@ -195,13 +218,16 @@ def subchecks(tier, seed):
                 shard_depth=2, bounds={"max_terms": 2, "universe": len(U), "frames": ["cross6", "shuffled-index"], "outputs": ["pandas", "sparse"],
                                        "construction": ["term list"]}),
             Sub("columns-1term-allframes", drv, {"universe": U, "K": 1, "modes": ["string", "terms"], "outputs": ["pandas", "numpy", "sparse"],
-                                                 "frames": fr, "frame_names": list(fr)},
+                                                 "frames": fr, "frame_names": list(fr), "materializers": ["pandas", "narwhals"]},
                 shard_depth=2, bounds={"max_terms": 1, "universe": len(U), "frames": list(fr)}),
         ]
     return [
         Sub("columns-2terms", drv, {"universe": U, "K": 2, "modes": ["string", "terms"], "outputs": ["pandas", "numpy", "sparse"],
                                     "frames": fr, "frame_names": list(fr)},
             shard_depth=2, bounds={"max_terms": 2, "universe": len(U), "frames": list(fr)}),
+        Sub("columns-2terms-narwhals", drv, {"universe": U, "K": 2, "modes": ["terms"], "outputs": ["pandas", "sparse"],
+                                             "frames": fr, "frame_names": ["cross6"], "materializers": ["narwhals"]},
+            shard_depth=2, bounds={"max_terms": 2, "universe": len(U), "materializer": "narwhals", "frames": ["cross6"]}),
         Sub("columns-3terms", drv, {"universe": U[:25], "K": 3, "modes": ["terms"], "outputs": ["pandas", "sparse"],
                                     "frames": fr, "frame_names": ["cross6"]},
             shard_depth=3, bounds={"max_terms": 3, "universe": 25, "frames": ["cross6"], "outputs": ["pandas", "sparse"]}),
